@@ -97,6 +97,40 @@ func (p *Parser) ResetAddNewInput(s io.RuneScanner) {
 
 var UnexpectedEnd error = errors.New("Unexpected end of input")
 
+// finalNewline supplies one '\n' after the end of a complete
+// text, so that the last token of the text is terminated (and
+// so delivered) like any other token.
+type finalNewline struct {
+	io.RuneScanner
+	sent bool
+}
+
+func (f *finalNewline) ReadRune() (rune, int, error) {
+	if f.sent {
+		return 0, 0, io.EOF
+	}
+	r, n, err := f.RuneScanner.ReadRune()
+	if err != nil {
+		f.sent = true
+		return '\n', 1, nil
+	}
+	return r, n, nil
+}
+
+func (f *finalNewline) UnreadRune() error {
+	if f.sent {
+		f.sent = false
+		return nil
+	}
+	return f.RuneScanner.UnreadRune()
+}
+
+// WholeText marks s as a complete source text (as opposed to a
+// piece of one, to be continued with NewInput).
+func WholeText(s io.RuneScanner) io.RuneScanner {
+	return &finalNewline{RuneScanner: s}
+}
+
 const SliceDefaultCap = 10
 
 func (p *Parser) getRecur() int64 {
